@@ -25,7 +25,7 @@ type seedEdit struct {
 type seed struct {
 	Name   string     `json:"name"`
 	Prop   string     `json:"property"`
-	Kind   string     `json:"kind"` // mutant | refactor
+	Kind   string     `json:"kind"`   // mutant | refactor
 	Expect string     `json:"expect"` // substring of an obligation key that must be violated (mutant)
 	Edits  []seedEdit `json:"edits"`
 	Note   string     `json:"note,omitempty"`
